@@ -204,11 +204,24 @@ func (g *argGen) variant(s stack.Signature) stack.Signature {
 	for i := range out.Stack.Calls {
 		out.Stack.Calls[i].Args = g.perturbArgs(out.Stack.Calls[i].Args)
 	}
-	pick := r.Intn(13)
+	pick := r.Intn(14)
 	if len(out.Stack.Calls) == 0 && (pick == 3 || pick == 5) {
 		pick = 1
 	}
 	switch pick {
+	case 13: // same creating function, file and line, another parent goroutine ("created by f in goroutine N")
+		if len(out.CreatedBy.Calls) != 0 {
+			c := out.CreatedBy.Calls[0]
+			base := c.Func.Complete
+			if i := strings.Index(base, " in goroutine "); i != -1 {
+				base = base[:i]
+			}
+			raw := base
+			if k := r.Intn(4); k != 0 {
+				raw = base + " in goroutine " + []string{"", "1", "7", "18"}[k]
+			}
+			out.CreatedBy.Calls[0] = mkCall(raw, fileChoice{c.RemoteSrcPath, c.Location}, c.Line, c.Args)
+		}
 	case 10: // both elided, this one shows fewer frames
 		if len(out.Stack.Calls) > 1 {
 			out.Stack.Calls = out.Stack.Calls[:len(out.Stack.Calls)-1]
@@ -296,6 +309,21 @@ func genSnapshot(r *rand.Rand, n, k int, named bool) []*stack.Goroutine {
 	}
 	if named {
 		applyNames(r, gs)
+	}
+	if r.Intn(4) == 0 {
+		// an "augmented" snapshot: Processed is a function of Values, as after source analysis
+		for _, x := range gs {
+			for i := range x.Stack.Calls {
+				a := &x.Stack.Calls[i].Args
+				if len(a.Values) == 0 {
+					continue
+				}
+				a.Processed = nil
+				for k := range a.Values {
+					a.Processed = append(a.Processed, "T("+a.Values[k].String()+")")
+				}
+			}
+		}
 	}
 	return gs
 }
